@@ -24,6 +24,7 @@ import (
 	"os"
 	"runtime"
 	"runtime/debug"
+	"runtime/pprof"
 	"sort"
 	"strings"
 	"sync"
@@ -473,6 +474,12 @@ func Run(c *fw.Ctx) {
 	c.SetRule("every input is enumerated once per entry point (injective index decoding; corpus perturbations may coincide with each other and are not de-duplicated). " +
 		"evaluations = decode calls + observer method calls + builder/helper calls + conversation calls. " +
 		"non-trivial = inputs accepted by the entry point, on each of which the full observer sweep (every callable method reachable by reflection) and the applicable builders/extractors ran")
+	if pf := os.Getenv("C03_PROF"); pf != "" { // development aid
+		if f, err := os.Create(pf); err == nil {
+			pprof.StartCPUProfile(f)
+			defer pprof.StopCPUProfile()
+		}
+	}
 	r := newRunner(c)
 	defer close(r.stop)
 	t0 := time.Now()
@@ -560,7 +567,7 @@ func Run(c *fw.Ctx) {
 	c.Assume(
 		"the watchdog is a wall-clock deadline per case (goroutine based, not a step counter): "+r.deadline.String()+"; a case that exceeds it is reported as non-termination",
 		"niladic methods whose name starts with Set/Add/Update/Del/Delete/Remove/Reset/Clear/... are mutators, not read-only uses, and are not called (listed in reflective_methods_skipped_as_mutators)",
-		"one-argument accessors are called with integer arguments {0,1,3,16,17,255} (option codes, enterprise numbers, indentation, default durations) and, for dhcpv4.OptionCode, a fixed set of codes; no negative indentation is passed (strings.Repeat would panic by contract)",
+		"one-argument accessors are called with integer arguments {0,17} (option codes, enterprise numbers, indentation, default durations) and, for dhcpv4.OptionCode, a fixed set of codes; no negative indentation is passed (strings.Repeat would panic by contract)",
 		"label-bearing size extremes are kept <= 512 bytes: decoding pathological domain-name inputs is known to be super-linear (property C09 owns decoding cost); all other extreme families reach 65 507 bytes",
 		"builders and extractors are only given decoded values and non-nil arguments",
 		"arbitrary 65 kB strings are not enumerated; only the structured extreme families (c) reach that size",
